@@ -143,7 +143,7 @@ def expr_sig(case, res):
 
 
 def expr_agrees(exp, obs):
-    if obs.get("k") == "panic" or "k" not in obs:
+    if obs.get("k") in ("panic", "unstable") or "k" not in obs:
         return False
     if exp["k"] == "any":
         return True
